@@ -1,6 +1,7 @@
 package smtp
 
 import (
+	"bytes"
 	"errors"
 	"io"
 )
@@ -16,30 +17,67 @@ type lineLimitReader struct {
 	LineLimit int
 
 	curLineLength int
+
+	// The reader sits below a buffered reader, so a single Read can return
+	// several pipelined commands, or a BDAT command together with (part
+	// of) its chunk, to which no line limit applies. When a line gets too
+	// long, the complete lines in front of it are therefore still handed
+	// out and the rest is held back: it is refused with ErrTooLongLine if
+	// the limit is still in force on the next Read, and handed out if the
+	// limit has been lifted in the meantime.
+	tooLong bool
+	held    []byte
+}
+
+// setLimit changes the limit. The limit is lifted and restored between two
+// lines of the protocol (around a BDAT chunk), so counting starts afresh.
+func (r *lineLimitReader) setLimit(limit int) {
+	r.LineLimit = limit
+	r.curLineLength = 0
 }
 
 func (r *lineLimitReader) Read(b []byte) (int, error) {
-	if r.curLineLength > r.LineLimit && r.LineLimit > 0 {
+	if r.LineLimit == 0 {
+		r.tooLong = false
+		if len(r.held) > 0 {
+			n := copy(b, r.held)
+			r.held = r.held[n:]
+			return n, nil
+		}
+		return r.R.Read(b)
+	}
+
+	if r.tooLong || r.curLineLength > r.LineLimit {
 		return 0, ErrTooLongLine
 	}
 
-	n, err := r.R.Read(b)
-	if err != nil {
-		return n, err
+	var n int
+	if len(r.held) > 0 {
+		n = copy(b, r.held)
+		r.held = r.held[n:]
+	} else {
+		var err error
+		n, err = r.R.Read(b)
+		if err != nil {
+			return n, err
+		}
 	}
 
-	if r.LineLimit == 0 {
-		return n, nil
-	}
-
-	for _, chr := range b[:n] {
+	for i, chr := range b[:n] {
 		if chr == '\n' {
 			r.curLineLength = 0
 		}
 		r.curLineLength++
 
 		if r.curLineLength > r.LineLimit {
-			return 0, ErrTooLongLine
+			r.tooLong = true
+			// Hand out the complete lines, hold back the rest.
+			keep := bytes.LastIndexByte(b[:i], '\n') + 1
+			r.held = append(append([]byte(nil), b[keep:n]...), r.held...)
+			if keep == 0 {
+				return 0, ErrTooLongLine
+			}
+			return keep, nil
 		}
 	}
 
